@@ -153,7 +153,7 @@ def buffer_sites():
                     n += 1
                     args = [flow.dotted(a) for a in cl.args]
                     obs.append(flow.ob(f"{m.split('.')[-1]}.{fn.name}@{cl.lineno - fn.lineno}:nested-buffer-carries-the-parent-buffer", len(args) == 1 and args[0] in ("buffer", "self.buffer"), str(args), replay_schema="code", replay_extra={"code": REPLAY_OUTPUT}))
-    obs.append(flow.ob("nested-buffer-sites-found", n >= 5, f"{n} get_buffer call sites"))
+    obs.append(flow.ob("nested-buffer-sites-found", n >= 2, f"{n} get_buffer call sites"))
     return obs
 
 
